@@ -204,6 +204,9 @@ def rule_c(ctx, rid="C07-C"):
             fu = drn.calls(lambda cd, t: ends(cd, "Argument::<'_>::from_usize") and t["args"] and True)
             fu = [(bb, t) for bb, t in fu if bb in region]
             okc = any(("local", sub_name) in drn.atoms(t["args"][0]) for bb, t in fu)
+            # ... or, like the Ul arm, `" ".repeat(prefix_width)` built in the arm itself
+            reps = [t for bb, t in calls_in(drn, region, lambda cd, t: callee_method(t) == "repeat" and "str" in (callee_def(t) or ""))]
+            okc = okc or any(norm(drn.expr(t["args"][1])) == sub_name for t in reps)
             ctx.check(okc, rid, "Ol:indent-width=subtracted-width", drn.term(tb)["span"], drn.id,
                       "blank prefix padded to %s, width_minus(%s)" % ([norm(drn.expr(t["args"][0])) for bb, t in fu], sub_name))
             pads = []
@@ -260,9 +263,21 @@ def rule_d(ctx):
     pdn = F.one("process_dom_node")
     pbodies = [pdn] + [cb for _bb, cb in transitive_closures(F, pdn)]
     uo = []
+
+    def parses(pb, op):
+        at = pb.atoms(op)
+        if has_call(at, "str>::parse", "<impl str>::parse"):
+            return True
+        # `.and_then(|attr| attr.value.parse().ok())`: the parse sits in a closure handed to an Option combinator on the way
+        for (_cbb, _i, cb, _ops, _f) in closure_bodies_created_in(F, pb):
+            if any(callee_method(t2) == "parse" for _b2, t2 in cb.calls(lambda cd, t2: True)) and \
+                    has_call(at, "Option::<T>::and_then", "Option::<T>::map"):
+                return True
+        return False
+
     for pb in pbodies:
         uo += [(pb, t) for bb, t in pb.calls(lambda cd, t: callee_method(t) == "unwrap_or")
-               if has_call(pb.atoms(t["args"][0]), "str>::parse", "<impl str>::parse") and (op_const(t["args"][1]) or {}).get("ty") == "i64"]
+               if (op_const(t["args"][1]) or {}).get("ty") == "i64" and parses(pb, t["args"][0])]
     okc = len(uo) == 1 and (op_const(uo[0][1]["args"][1]) or {}).get("int") == 1
     ctx.check(okc, "C07-D", "ol-start:parse-or-1", uo[0][1]["span"] if uo else pdn.span, pdn.id, "")
     init = []
